@@ -152,6 +152,20 @@ def run(ctx):
                                   % (f.qualname, norm(st)[:50]), node=st,
                                   witness="two filters with the same name; getfilter/removefilter then address only the first")
     ctx.need("O1", "insertions / renames", n1, 3)
+    # the uniqueness test looks at the list as it is now: nothing it reads is a copy that an edit could leave behind
+    fe = m["filter_exists"]
+    fsn = fe.params[0]
+    stale = [a for a in walk_no_nested(fe.node) if isinstance(a, ast.Attribute) and isinstance(a.value, ast.Name) and a.value.id == fsn
+             and a.attr != "filters" and a.attr not in R.m and not isinstance(getattr(a, "_parent", None), ast.Call)]
+    reads_list = any(isinstance(a, ast.Attribute) and a.attr == "filters" for a in walk_no_nested(fe.node))
+    if stale:
+        ctx.violation("O1", fe, "uniqueness-from-cache:%s" % stale[0].attr, "filter_exists answers from self.%s, a copy of the names kept beside the "
+                      "list: a rename or a remove followed by an add leaves it out of date" % stale[0].attr, node=stale[0],
+                      witness="add a, add b, remove a, add b: two filters named b")
+    elif reads_list:
+        ctx.holds("O1", "filter_exists reads the filter list itself")
+    else:
+        ctx.violation("O1", fe, "uniqueness-not-from-list", "filter_exists does not read the filter list", node=fe.node)
     # the name tested for uniqueness is the (normalised) name that is stored
     for op in ("addfilter", "updatefilter", "replacefilter"):
         f = m[op]
@@ -234,6 +248,25 @@ def _o3_swap(ctx, R, f, cfg, lp, dirp):
                 and len(st.targets[0].elts) == 2 and len(st.value.elts) == 2 and all(
                     isinstance(t, ast.Subscript) and "filters" in norm(t.value) for t in st.targets[0].elts):
             swaps.append(st)
+    # the same exchange written as two stores:  filters[i] = filters[j]; filters[j] = <entry>
+    pairs = []
+    for blk in walk_no_nested(f.node):
+        for fld in ("body", "orelse", "finalbody"):
+            lst = getattr(blk, fld, None)
+            if not isinstance(lst, list):
+                continue
+            for a, b in zip(lst, lst[1:]):
+                if isinstance(a, ast.Assign) and isinstance(b, ast.Assign) and len(a.targets) == 1 and len(b.targets) == 1 \
+                        and all(isinstance(t, ast.Subscript) and "filters" in norm(t.value) for t in (a.targets[0], b.targets[0])) \
+                        and isinstance(a.value, ast.Subscript) and norm(a.value) == norm(b.targets[0]):
+                    pairs.append((a, b))
+    for a, b in pairs:
+        # normalise to the tuple form so that one analysis serves both spellings
+        tup = ast.Assign(targets=[ast.Tuple(elts=[a.targets[0], b.targets[0]], ctx=ast.Store())],
+                         value=ast.Tuple(elts=[a.value, b.value], ctx=ast.Load()))
+        ast.copy_location(tup, a)
+        tup._pair = (a, b)
+        swaps.append(tup)
     if not swaps:
         return False
     # index variable = position of the current entry
@@ -277,6 +310,16 @@ def _o3_swap(ctx, R, f, cfg, lp, dirp):
         if isinstance(e, ast.BinOp) and isinstance(e.left, ast.Name) and e.left.id == idx and isinstance(e.right, ast.Constant) \
                 and isinstance(e.op, (ast.Add, ast.Sub)):
             return {(e.right.value if isinstance(e.op, ast.Add) else -e.right.value, None)}
+        if isinstance(e, ast.BinOp) and isinstance(e.left, ast.Name) and e.left.id == idx and isinstance(e.right, ast.Name) and isinstance(e.op, ast.Add):
+            # idx + step, with step = -1 if direction == "up" else 1
+            defs = [a.value for a in walk_no_nested(f.node) if isinstance(a, ast.Assign) and any(isinstance(t, ast.Name) and t.id == e.right.id for t in a.targets)]
+            if len(defs) == 1 and isinstance(defs[0], ast.IfExp):
+                c = cmp_parts(defs[0].test)
+                if c and c[1] == "Eq" and norm(c[0]) == dirp and const_value(ctx.program, f, c[2]) == "up":
+                    bv, ov = const_value(ctx.program, f, defs[0].body), const_value(ctx.program, f, defs[0].orelse)
+                    if isinstance(bv, int) and isinstance(ov, int):
+                        return {(bv, True), (ov, False)}
+            return set()
         if isinstance(e, ast.IfExp):
             c = cmp_parts(e.test)
             if c and c[1] == "Eq" and norm(c[0]) == dirp and const_value(ctx.program, f, c[2]) == "up":
@@ -295,8 +338,10 @@ def _o3_swap(ctx, R, f, cfg, lp, dirp):
             ctx.violation("O3", f, "move-distance:%s" % norm(st)[:40], "movefilter's swap %s does not exchange the current entry with a neighbour"
                           % norm(st)[:70], node=st)
             continue
-        nodes = cfg.nodes_for(st)
-        in_try = [t for t in walk_no_nested(f.node) if isinstance(t, ast.Try) and any(contains(b, st) for b in t.body) and any(
+        real = getattr(st, "_pair", (st,))[0]
+        nodes = cfg.nodes_for(real)
+        st_for_try = real
+        in_try = [t for t in walk_no_nested(f.node) if isinstance(t, ast.Try) and any(contains(b, st_for_try) for b in t.body) and any(
             h.type is not None and "IndexError" in norm(h.type) for h in t.handlers)]
         for off, dpol in sorted(offs, key=str):
             # the offset goes with the direction
@@ -527,6 +572,14 @@ def o2(ctx, R):
 
 def o5(ctx, R):
     m = R.m
+    # command objects hold their children / arguments in containers: a shallow copy shares them with the original
+    for f in R.mod.all_funcs():
+        for c in walk_no_nested(f.node):
+            if isinstance(c, ast.Call) and ((isinstance(c.func, ast.Attribute) and c.func.attr == "copy" and norm(c.func.value) == "copy")
+                                            or (isinstance(c.func, ast.Name) and c.func.id == "copy" and "copy" in getattr(R.mod, "imports", {}))):
+                ctx.violation("O5", f, "shallow-copy-of-command", "%s makes a shallow copy (%s): the copy shares its children and argument containers "
+                              "with the original, so filling one fills them all" % (f.qualname, norm(c)[:40]), node=c,
+                              witness="disable a, disable b: getfilter('b') returns a's content; a filter disabled twice is rendered twice")
     # ---- O5 -----------------------------------------------------------------------
     ctx.rule("O5", "enabled=False only with wrapping, True only with unwrapping, both under the recogniser's state guard; getters agree")
     rec = R.isdisabled.name
